@@ -539,8 +539,10 @@ impl FaitAccompli1Sampler<PartitionSampler> {
         let mut required_samples = Vec::new();
         let mut validators_truncated_stake = validators.clone();
         for v in &mut validators_truncated_stake {
-            let frac_stake = v.stake.inner() as f64 / total_stake.inner() as f64;
-            let samples = (frac_stake * k as f64).floor() as u64;
+            // NOTE: exact integer arithmetic, the `f64` product `stake / total * k`
+            // can land just below an integer (e.g. 1/49 * 49) and lose a guaranteed seat
+            let samples = (u128::from(v.stake.inner()) * u128::from(k)
+                / u128::from(total_stake.inner())) as u64;
             v.stake -= Stake::new(samples * total_stake.inner() / k);
             required_samples.extend((0..samples).map(|_| v.id));
         }
@@ -571,8 +573,10 @@ impl FaitAccompli1Sampler<IidQuorumSampler<StakeWeightedSampler>> {
         let mut required_samples = Vec::new();
         let mut validators_truncated_stake = validators.clone();
         for v in &mut validators_truncated_stake {
-            let frac_stake = v.stake.inner() as f64 / total_stake.inner() as f64;
-            let samples = (frac_stake * k as f64).floor() as u64;
+            // NOTE: exact integer arithmetic, the `f64` product `stake / total * k`
+            // can land just below an integer (e.g. 1/49 * 49) and lose a guaranteed seat
+            let samples = (u128::from(v.stake.inner()) * u128::from(k)
+                / u128::from(total_stake.inner())) as u64;
             v.stake -= Stake::new(samples * total_stake.inner() / k);
             required_samples.extend((0..samples).map(|_| v.id));
         }
@@ -642,8 +646,10 @@ impl FaitAccompli2Sampler {
         let total_stake: Stake = validators.iter().map(|v| v.stake).sum();
         let mut required_samples = Vec::new();
         for v in &validators {
-            let frac_stake = v.stake.inner() as f64 / total_stake.inner() as f64;
-            let samples = (frac_stake * k as f64).floor() as u64;
+            // NOTE: exact integer arithmetic, the `f64` product `stake / total * k`
+            // can land just below an integer (e.g. 1/49 * 49) and lose a guaranteed seat
+            let samples = (u128::from(v.stake.inner()) * u128::from(k)
+                / u128::from(total_stake.inner())) as u64;
             required_samples.extend((0..samples).map(|_| v.id));
         }
 
